@@ -115,6 +115,10 @@ type EncodeOpts struct {
 	// Omit, when non-nil, drops the fields it returns true for (any
 	// requiredness): used to synthesise messages from writers that omit fields.
 	Omit func(s *schema.Struct, f *schema.Field) bool
+	// Replace, when non-nil and returning non-nil bytes, writes those bytes (a
+	// complete field: header and value) instead of the field - e.g. the same id
+	// with another wire type, as a writer with a diverged schema would send.
+	Replace func(s *schema.Struct, f *schema.Field) []byte
 }
 
 func Encode(s *schema.Struct, v reflect.Value) []byte {
@@ -146,6 +150,12 @@ func appendStruct(b []byte, s *schema.Struct, v reflect.Value, o *EncodeOpts) []
 	}
 	for _, i := range idx {
 		f := s.Fields[i]
+		if o != nil && o.Replace != nil {
+			if rb := o.Replace(s, f); rb != nil {
+				b = append(b, rb...)
+				continue
+			}
+		}
 		b = append(b, f.T.WT(), byte(f.ID>>8), byte(f.ID))
 		b = appendValue(b, f.T, v.Field(f.Index), o)
 	}
